@@ -20,7 +20,7 @@ RULE = ("schemas with nested schemas, config types, lists of schemas / config ty
         "cincoconfig.ValidationError (a ValueError), ref_path == the declared path (a.b[2].c, d[key]) and a message "
         "starting with that path (plus ' (name)' for a friendly name); non-trivial = >= 3 rejections judged over >= 2 "
         "routes; distinct = distinct (schema, probes)")
-REQUIRED = ("reordered_list_probes", "pos:dict-key", "rejections_judged", "route:attr", "route:dotted", "route:ctor", "route:load_tree", "route:loads", "pos:nested",
+REQUIRED = ("object_item_probes", "reordered_list_probes", "pos:dict-key", "rejections_judged", "route:attr", "route:dotted", "route:ctor", "route:load_tree", "route:loads", "pos:nested",
             "pos:ctype", "pos:list-item", "pos:dict-entry", "pos:list-scalar", "pos:subconfig-slot", "friendly_names_judged",
             "after_prior_load")
 ASSUMPTIONS = ["unknown keys (AttributeError) and non-map top-level documents are not 'a value for a declared field'",
@@ -75,12 +75,14 @@ def generate(rng, ctx):
         probes.append({"pos": tgt["pos"], "path": tgt["path"], "bad": bad, "routes": rng.sample(routes, rng.choice([2, 3, 5])),
                        "index": rng.choice([0, 0, 1, 2]), "nitems": rng.choice([1, 2, 3]), "equal_items": rng.random() < 0.5,
                        "key": rng.choice(["k1", "kk", "a.b", "K"]), "fmt": rng.choice(FMT_FOR_LOADS),
-                       "prior_load": rng.random() < 0.4, "reorder": rng.choice([None, None, "insert0", "pop0", "reverse"])})
+                       "prior_load": rng.random() < 0.4, "reorder": rng.choice([None, None, "insert0", "pop0", "reverse"]),
+                       "object_items": rng.random() < 0.5})
     return {"schema": schema, "probes": probes}
 
 
 def probes(ctx):
-    base = {"index": 0, "nitems": 2, "equal_items": False, "key": "k1", "fmt": "json", "prior_load": False, "reorder": None}
+    base = {"index": 0, "nitems": 2, "equal_items": False, "key": "k1", "fmt": "json", "prior_load": False, "reorder": None,
+            "object_items": False}
     # K1: default instance of a config-type field has no key
     s1 = {"kind": "schema", "key": "", "fields": [{"kind": "ctype", "key": "one", "name": "One", "schema": {
         "kind": "schema", "key": "", "fields": [{"kind": "field", "key": "age", "family": "int", "params": {}}]}}]}
@@ -155,6 +157,8 @@ def run(case, ctx, res):
             err, want_path, fname, feat = out
             if feat.endswith(":after-reorder"):
                 res.count("reordered_list_probes")
+            if feat.endswith(":object-items") or pr.get("object_items"):
+                res.count("object_item_probes")
             res.count("rejections_judged")
             res.count("route:" + route)
             res.count("pos:" + ("nested" if pr["pos"] == "root" else pr["pos"]))
@@ -191,9 +195,76 @@ def run(case, ctx, res):
         res.nontrivial(case["schema"], case["probes"])
 
 
+def attempt_objects(cc, drv, pr, route, rng):
+    """A list of configuration OBJECTS is assigned; one of them is rejected by whole-item validation because a required
+    field (the target) is unset.  The error must name <list>[i].<field> from the root."""
+    root, cfg = drv.root, drv.cfg
+    parts = pr["path"].split(".")
+    li = [i for i, p in enumerate(parts) if p.endswith("[]")]
+    if len(li) != 1 or li[0] != len(parts) - 2 or li[0] != 0 and False:
+        return None
+    list_path = ".".join(parts[: li[0] + 1])[:-2]
+    if "[" in list_path:
+        return None
+    lnode = spec.node_at(root, list_path)
+    target = spec.node_at(root, (list_path + "[0]." + parts[-1]))
+    if target is None or target["kind"] != "field" or not target.get("params", {}).get("required") or \
+            target["params"].get("default") is not None or target["family"] in ("flag", "include"):
+        return None
+    if not model.is_enabled(lnode["item"], {}) and any(ch["kind"] == "field" and ch["family"] == "flag" for ch in lnode["item"].get("fields", lnode["item"].get("schema", {}).get("fields", []))):
+        return None
+    n = max(pr["nitems"], 1)
+    idx = min(pr["index"], n - 1)
+    try:
+        list_field_owner = spec.get_path(cfg, ".".join(list_path.split(".")[:-1])) if "." in list_path else cfg
+        probe = cfg.__class__  # noqa: F841
+        objs = []
+        # a valid template tree
+        good = valid_item(drv, lnode["item"], rng)
+        if good is None:
+            return None
+        cfg[list_path] = []
+        proxy = spec.get_path(cfg, list_path)
+        for i in range(n):
+            inst = proxy.item_field()
+            tree = copy.deepcopy(good)
+            if i == idx:
+                tree.pop(parts[-1], None)
+            inst.load_tree(tree, validate=False)
+            if i != idx:
+                inst.validate()
+            objs.append(inst)
+    except Exception:
+        return None
+    unmet = [ch["key"] for ch in model.stored_children(lnode["item"]) if ch["kind"] == "field" and ch.get("params", {}).get("required")
+             and model.empty_required(ch, good.get(ch["key"])) and ch["key"] != parts[-1]]
+    if unmet:
+        return None
+    want = "%s[%d].%s" % (list_path, idx, parts[-1])
+    fname = target["params"].get("name")
+    owner_path, leaf = spec.split_parent(list_path)
+    if route in ("attr", "dotted") and _default_ctype_on_path(root, want, {}):
+        # known finding K1: the list hangs below a config-type default instance that does not know its key
+        feat0 = "ctype-default-instance"
+    else:
+        feat0 = "list-item:object-items"
+    if route == "attr":
+        owner = spec.get_path(cfg, owner_path) if owner_path else cfg
+        return _call(lambda: setattr(owner, leaf, objs)), want, fname, feat0
+    if route == "dotted":
+        return _call(lambda: cfg.__setitem__(list_path, objs)), want, fname, feat0
+    if route == "ctor" and "." not in list_path:
+        return _call(lambda: drv.built.schema(**{list_path: objs})), want, fname, "list-item:object-items"
+    return None
+
+
 def attempt(cc, ctx, drv, pr, route, rng):
     """Deliver the rejected value through one route.  Returns (exception or None, expected path, friendly name,
     feature) or None when the route cannot carry this probe."""
+    if pr.get("object_items") and pr["pos"] == "list-item" and route in ("attr", "dotted", "ctor"):
+        got = attempt_objects(cc, drv, pr, route, rng)
+        if got is not None:
+            return got
     root, cfg = drv.root, drv.cfg
     tmpl, pos, bad = pr["path"], pr["pos"], pr["bad"]
     parts = tmpl.split(".")
